@@ -1,5 +1,6 @@
 SPECIFICATION FairSpec
-CONSTANTS Cap = 2  Payload = 3  Variant = "run_process"  Drain = TRUE  CloseAll = TRUE  Timeout = FALSE  Escalate = TRUE  DtorSig = "KILL"  ProgName = "writeread"
+CONSTANTS Cap = 2  Payload = 3  Variant = "run_process"  Drain = TRUE  CloseAll = TRUE  Timeout = FALSE  Escalate = TRUE  DtorSig = "KILL"  FirstName = "none"  ReapOnAssign = TRUE  ProgName = "writeread"
 CONSTANT Prog <- MCProg
+CONSTANT FirstProg <- MCFirst
 INVARIANTS OutputComplete StatusExact Reaped AllFdsClosed StdinDelivered NoThrowUnlessEpipe
 PROPERTY Termination
